@@ -26,7 +26,10 @@ P = 'C09'
 # parameter box (part of the claim, DESIGN.md section 5 C09)
 EY_MIN, EY_MAX = 1.0, 1.0e5       # 1 <= E/Y0 <= 1e5
 NU_MAX = 0.49                     # 0 <= nu <= 0.49
-H_MIN_REL = 1.0e-12               # H_MIN_REL*E <= H <= E where the root-finder contract is used (see O3 for [0, E])
+H_MIN_REL = 0.0                   # the full designed range 0 <= H <= E (perfect plasticity included)
+H_POS_REL = 1.0e-12               # O3 additionally keeps its historical sub-range query H >= 1e-12*E
+PAD_MIN, PAD_MAX = 1e-9, 1e-6     # the bracket width is the elastic-predictor bound padded by a relative amount in [PAD_MIN, PAD_MAX]:
+                                  # what the bracket proofs need (any padding > (3-2c^2)/3 = 1.8e-16 closes r(ub) >= 0 without hardening)
 EQPS_MAX = 10.0
 STRAIN_MAX = 1.0
 
@@ -670,9 +673,16 @@ def links_bracket(ch, cap=60):
         rh = v_add(v_sub(v_add(v_mul(v_mul(2.0, q.mu), v_mul(C_FLOW, v_mul(C_FLOW, w))), v_add(q.F0, v_mul(q.H, w))), T), 0.0)
         return [Eq(A['lb'], q.e0, when=q.g, name='lb_is_old_eqps', scale=1e-3),
                 Eq(A['rl'], v_sub(q.F0, T), when=v_and(q.g, q.nz0), name='r_lb_closed_form', scale=q.Y0),
-                Eq(v_mul(v_mul(3.0, q.mu), w), v_sub(T, q.F0), when=v_and(q.g, q.nz0), name='width_closed_form', scale=q.Y0),
                 Eq(A['rh'], rh, when=v_and(q.g, q.nz0), name='r_ub_closed_form', scale=q.Y0)]
-    return ch.link('iii.bracket_ends', mk, cap=cap, generalise={'r_ub_closed_form': lambda q: [q.A['ub']]})
+    def mk_w(q):
+        A = q.A
+        T = v_mul(v_mul(2.0, q.mu), q.DN0)
+        w3 = v_mul(v_mul(3.0, q.mu), v_sub(A['ub'], A['lb']))
+        return [Le(v_mul(1.0 + PAD_MIN, v_sub(T, q.F0)), w3, when=v_and(q.g, q.nz0), name='width_at_least_padded_predictor_bound', scale=q.Y0),
+                Le(w3, v_mul(1.0 + PAD_MAX, v_sub(T, q.F0)), when=v_and(q.g, q.nz0), name='width_at_most_padded_predictor_bound', scale=q.Y0)]
+    r1 = ch.link('iii.bracket_ends', mk, cap=cap, generalise={'r_ub_closed_form': lambda q: [q.A['ub']]})
+    # the width only involves dev(E):N as a whole: that term is renamed in the whole query (scalar reasoning)
+    return r1 + ch.link('iii.bracket_width', mk_w, cap=cap, use_facts=False, rename=lambda q: [q.DN0])
 
 
 def links_return(ch, cap=120):
@@ -722,7 +732,7 @@ def _rungs(h, quick_full=False):
 def o1(h):
     """eqps' >= eqps for every strain/state/moduli in the box (linear hardening)"""
     _common(h)
-    h.bounds('linear hardening %g*E <= H <= E; quick: plane-strain block (4 dispGrad + 3 plastic-strain components); thorough: full 3x3 '
+    h.bounds('linear hardening 0 <= H <= E (H_MIN_REL = %g); quick: plane-strain block (4 dispGrad + 3 plastic-strain components); thorough: full 3x3 '
              '(9 + 5 components)' % H_MIN_REL)
     for lab, build in _rungs(h):
         c = J2Case(h, f_state, EX, build=build, sampler=sampler_full, label='state_new_' + lab)
@@ -739,7 +749,7 @@ def o1(h):
 def o2(h):
     """the new plastic strain is traceless and symmetric whenever the old one is (the state invariant is inductive)"""
     _common(h)
-    h.bounds('linear hardening %g*E <= H <= E; quick: plane-strain block; thorough: full 3x3' % H_MIN_REL)
+    h.bounds('linear hardening 0 <= H <= E (H_MIN_REL = %g); quick: plane-strain block; thorough: full 3x3' % H_MIN_REL)
     for lab, build in _rungs(h):
         c = J2Case(h, f_state, EX, build=build, sampler=sampler_full, label='state_new_' + lab)
 
@@ -761,8 +771,8 @@ def o3(h):
     """the bracket handed to find_root is valid: lb = eqps_old < ub and r(lb) < 0 <= r(ub) (precondition of the C17 contract);
     chain: closed forms of r at the bracket ends (links on the real code), then scalar algebra"""
     _common(h)
-    h.bounds('linear hardening; two parameter ranges: %g*E <= H <= E (the range every other obligation is claimed for) and the full designed range 0 <= H <= E' % H_MIN_REL,
-             'plane-strain block and full 3x3 in both tiers (the H >= 0 range on the plane-strain block)')
+    h.bounds('linear hardening; the full designed range 0 <= H <= E (and, as a separate query, the sub-range %g*E <= H <= E)' % H_POS_REL,
+             'plane-strain block and full 3x3 in both tiers')
     h.assume_note('O3 does not use the post-condition of the root-finder contract (the stub value is unconstrained here)')
     for lab, build in _rungs(h, quick_full=True):
         ch = chain_case(h, build, lab, assume_post=False, hmin_rel=0.0)
@@ -771,9 +781,7 @@ def o3(h):
         links_bracket(ch)
         if ch.violated:
             continue
-        for hmin, tag in ((H_MIN_REL, 'H>=%g*E' % H_MIN_REL), (0.0, 'H>=0')):
-            if hmin == 0.0 and lab != 'plane':
-                continue
+        for hmin, tag in ((H_POS_REL, 'H>=%g*E' % H_POS_REL), (0.0, 'H>=0')):
             ch.close('%s.lb_lt_ub[%s]' % (lab, tag), lambda q: Lt(q.A['lb'], q.A['ub'], when=q.g, scale=0.0), hmin_rel=hmin)
             ch.close('%s.r_lb_negative[%s]' % (lab, tag), lambda q: Lt(q.A['rl'], 0.0, when=q.g, scale=0.0), hmin_rel=hmin)
             ch.close('%s.r_ub_nonnegative[%s]' % (lab, tag), lambda q: Le(0.0, q.A['rh'], when=q.g, scale=0.0), hmin_rel=hmin)
@@ -819,7 +827,7 @@ def o4(h):
     """after the update the Mises stress is on or inside the yield surface at the new eqps, to the solver tolerance
     (cut-lemma chain (i)-(iv) of DESIGN section 5 C09, every link its own query)"""
     _common(h)
-    h.bounds('linear hardening %g*E <= H <= E; plane-strain block and full 3x3 (9 dispGrad + 5 plastic-strain components) in both tiers' % H_MIN_REL,
+    h.bounds('linear hardening 0 <= H <= E (H_MIN_REL = %g); plane-strain block and full 3x3 (9 dispGrad + 5 plastic-strain components) in both tiers' % H_MIN_REL,
              'goal: 4 mu^2 c^2 |dev(strain - plastic strain\')|^2 <= (flow(eqps\') + 1e-10*Y0)^2, c = the code\'s binary64 sqrt(3/2) (squared form: no ideal irrational)')
     for lab, build in _rungs(h, quick_full=True):
         run_chain(h, chain_case(h, build, lab), lab, 'O4')
@@ -830,7 +838,7 @@ def o6(h):
     """a second update at the same displacement gradient from the committed state takes the elastic branch and returns the
     committed state unchanged (shared tolerance of yield test and root finder)"""
     _common(h)
-    h.bounds('linear hardening %g*E <= H <= E; plane-strain block and full 3x3 in both tiers' % H_MIN_REL)
+    h.bounds('linear hardening 0 <= H <= E (H_MIN_REL = %g); plane-strain block and full 3x3 in both tiers' % H_MIN_REL)
     for lab, build in _rungs(h, quick_full=True):
         ch = chain_case(h, build, lab)
         if not run_chain(h, ch, lab, 'O6'):
@@ -846,7 +854,7 @@ def o7(h):
     _common(h)
     J2 = _mods()[0]
     h.encoded(J2._energy_density, J2.elastic_free_energy, J2.elastic_volumetric_free_energy)
-    h.bounds('linear hardening %g*E <= H <= E; plane-strain block and full 3x3 in both tiers' % H_MIN_REL)
+    h.bounds('linear hardening 0 <= H <= E (H_MIN_REL = %g); plane-strain block and full 3x3 in both tiers' % H_MIN_REL)
     for lab, build in _rungs(h, quick_full=True):
         ch = chain_case(h, build, lab, energy=True)
         if not run_chain(h, ch, lab, 'O6'):
@@ -863,7 +871,7 @@ def f_potential(Ee, x, y, xo, E, nu, Y0, H, dt):
     return pot(x), pot(y), res(x), res(y)
 
 
-@obligation(P, 'O5.minimiser', cap=300)
+@obligation(P, 'O5.minimiser', cap=600)
 def o5(h):
     """the residual handed to the root finder is the derivative of the incremental potential along the flow direction and is
     strictly increasing, the potential lies above its tangents: a point with |r| <= tol minimises the incremental potential
@@ -890,7 +898,7 @@ def o5(h):
         tol = v_mul(tol_rel(), Y0)
         return box, [Lt(rx, ry, when=v_lt(x, y), name='residual_strictly_increasing', scale=0.0),
                      Le(v_add(px, v_mul(rx, d)), py, name='potential_above_tangent', scale=Y0)]
-    recs = c.prove('convex', spec, cap=150, order=('core', 'nlsat'))
+    recs = c.prove('convex', spec, cap=300, order=('core', 'nlsat'))
     # chain close: |r(x)| <= tol and the tangent inequality give approximate minimality (potential/residual terms renamed, definitions dropped)
     _, atoms = spec(c.inp, c.out)
     px, py, rx, ry = [s0(v) for v in c.out]
@@ -941,7 +949,7 @@ def o7b_not_registered(h):
     _common(h)
     J2 = _mods()[0]
     h.encoded(J2._energy_density, J2.elastic_free_energy, J2.elastic_volumetric_free_energy, 'jax.grad of MaterialModel.compute_energy_density (through find_root\'s custom_root tangent rule)')
-    h.bounds('linear hardening %g*E <= H <= E; principal frame only (diagonal dispGrad: 3 components, diagonal plastic strain: 2 components); '
+    h.bounds('linear hardening 0 <= H <= E (H_MIN_REL = %g); principal frame only (diagonal dispGrad: 3 components, diagonal plastic strain: 2 components); '
              'the derivative is the full 3x3 gradient' % H_MIN_REL)
 
     def fn(dg, st, E, nu, Y0, H, dt):
@@ -1045,8 +1053,8 @@ def _scalar_close(h, name, facts, goal, table, scalars, cap=30, order=('nlsat', 
 @obligation(P, 'O8.voce', tiers=('thorough',), cap=600)
 def o8(h):
     """Voce hardening (exp/expm1 uninterpreted + ground axiom instances): irreversibility, isochoric symmetric increment,
-    bracket: lb < ub, r(lb) < 0, r(ub) >= -(3 - 2c^2) mu (ub - lb) (c = binary64 sqrt(3/2)), and r(ub) >= 0 exactly when the
-    hardening over the bracket exceeds that rounding defect; strict monotonicity of r"""
+    bracket: lb < ub, r(lb) < 0 <= r(ub) (the padding of the bracket covers the rounding defect 3 - 2c^2 of the binary64 sqrt(3/2),
+    so no hardening over the bracket is needed), also at the historical saturated-regime replay point; strict monotonicity of r"""
     _common(h, linear=False)
     J2, Hd, SRF, TM = _mods()
     h.encoded(Hd.voce)
@@ -1103,7 +1111,8 @@ def o8(h):
         Eq(d['A']['lb'], d['e0'], when=d['g'], name='lb_is_old_eqps', scale=1e-3)])
     link('bracket_ends', lambda d: [
         Eq(d['A']['rl'], v_sub(d['F0'], d['T']), when=v_and(d['g'], d['nz0']), name='r_lb_closed_form', scale=d['Y0']),
-        Eq(v_mul(v_mul(3.0, d['mu']), d['w']), v_sub(d['T'], d['F0']), when=v_and(d['g'], d['nz0']), name='width_closed_form', scale=d['Y0']),
+        Le(v_mul(1.0 + PAD_MIN, v_sub(d['T'], d['F0'])), v_mul(v_mul(3.0, d['mu']), d['w']), when=v_and(d['g'], d['nz0']), name='width_at_least_padded_predictor_bound', scale=d['Y0']),
+        Le(v_mul(v_mul(3.0, d['mu']), d['w']), v_mul(1.0 + PAD_MAX, v_sub(d['T'], d['F0'])), when=v_and(d['g'], d['nz0']), name='width_at_most_padded_predictor_bound', scale=d['Y0']),
         Eq(d['ry'], v_add(v_sub(v_mul(v_mul(2.0, d['mu']), v_mul(C_FLOW, v_mul(C_FLOW, v_sub(d['y'], d['e0'])))), d['T']), d['Fy']), when=d['nz0'],
            name='residual_closed_form_at_probe', scale=d['Y0'])])
     link('probe_is_ub', lambda d: [Eq(d['A']['rh'], d['ry'], when=d['g'], name='r_ub_is_residual_at_probe', scale=d['Y0'])], inst=True)
@@ -1112,20 +1121,19 @@ def o8(h):
     table = [('g', d['g']), ('rl', A['rl']), ('rh', A['rh']), ('ub', A['ub']), ('DN0', d['DN0']), ('DD0', d['DD0']), ('F0', d['F0']), ('Fy', d['Fy']), ('ry', d['ry'])]
     scal = {'E', 'nu', 'Y0', 'Ysat', 'eps0', 'y', 'dt', 'st_0', str(d['s'])}
     box = [tob(x) for x in box_moduli(c.inp, kind='voce')] + [tob(x) for x in d['sdef']] + [tob(d['inst']), d['e0'] >= 0]
-    for nm, goal in (('lb_lt_ub', Lt(A['lb'], A['ub'], when=d['g'], scale=0.0)), ('r_lb_negative', Lt(A['rl'], 0.0, when=d['g'], scale=0.0)),
-                     ('r_ub_ge_minus_rounding_defect_of_sqrt_3_2', Le(v_sub(0.0, d['defect']), A['rh'], when=d['g'], scale=d['Y0'])),
-                     ('r_ub_nonnegative_when_hardening_exceeds_defect', Le(0.0, A['rh'], when=v_and(d['g'], v_le(d['defect'], v_sub(d['Fy'], d['F0']))), scale=d['Y0']))):
-        rec = _scalar_close(h, 'bracket.' + nm, facts + box, goal, table, scal)
+    goals = {'lb_lt_ub': lambda dd: Lt(dd['A']['lb'], dd['A']['ub'], when=dd['g'], scale=0.0),
+             'r_lb_negative': lambda dd: Lt(dd['A']['rl'], 0.0, when=dd['g'], scale=0.0),
+             'r_ub_nonnegative': lambda dd: Le(0.0, dd['A']['rh'], when=dd['g'], scale=0.0)}
+    for nm, mk in goals.items():
+        rec = _scalar_close(h, 'bracket.' + nm, facts + box, mk(d), table, scal)
         if rec is None or rec['status'] != 'discharged':
-            def spec(i, o, calls, nm=nm):
+            def spec(i, o, calls, mk=mk):
                 dd = terms(i, o, calls)
-                AA = dd['A']
-                gl = {'lb_lt_ub': Lt(AA['lb'], AA['ub'], when=dd['g'], scale=0.0), 'r_lb_negative': Lt(AA['rl'], 0.0, when=dd['g'], scale=0.0),
-                      'r_ub_ge_minus_rounding_defect_of_sqrt_3_2': Le(v_sub(0.0, dd['defect']), AA['rh'], when=dd['g'], scale=dd['Y0']),
-                      'r_ub_nonnegative_when_hardening_exceeds_defect': Le(0.0, AA['rh'], when=v_and(dd['g'], v_le(dd['defect'], v_sub(dd['Fy'], dd['F0']))), scale=dd['Y0'])}[nm]
-                return box_voce(i) + dd['sdef'] + [dd['inst']], gl
-            c.prove('bracket.%s[over_real_inputs]' % nm, spec, cap=60, extra_assumes=facts + ax)
-    # ---- the designed goal r(ub) >= 0 itself, in the saturated regime eqps >= 40*eps0 (hardening over the bracket below the defect)
+                return box_voce(i) + dd['sdef'] + [dd['inst']], mk(dd)
+            fb = c.prove('bracket.%s[over_real_inputs]' % nm, spec, cap=60, extra_assumes=facts + ax)
+            if rec is not None and all(r_ is not None and r_['status'] in ('discharged', 'violated') for r_ in fb) and rec in h.records:
+                h.records.remove(rec)
+    # ---- regression guard for the fixed defect (unpadded bracket -> NaN state near saturation): r(ub) >= 0 at the historical replay point, eqps >= 40*eps0
     def spec_sat(i, o, calls):
         dd = terms(i, o, calls)
         return box_voce(i) + dd['sdef'] + [dd['inst'], v_le(v_mul(40.0, s0(i['eps0'])), dd['e0'])], Le(0.0, dd['A']['rh'], when=dd['g'], name='', scale=0.0)
@@ -1158,10 +1166,6 @@ DESIGNED_NOT_REGISTERED = [
      'plane-strain block / full 3x3: the exact identity S_before - S_after = r(x) * d(eqps\')/d(dispGrad) and the closed form of that sensitivity stay unknown at 60 s '
      '(z3 core and nlsat). Principal frame (o7b_not_registered in this module): identity 3-40 s, sensitivity closed form 30-40 s (nlsat), scalar closes 20-60 s in '
      'isolation, but unknown at the same caps under machine load: no 5x headroom, so it is left out. The ENERGY part of O7 is registered on the plane and full rungs.'),
-    ('O3 r(ub) >= 0 for Voce hardening over the whole parameter box',
-     'false in real arithmetic: r(ub) = flow(ub) - flow(lb) - (3 - 2 c^2) mu (ub - lb) with c = binary64 sqrt(3/2) < sqrt(3/2); near saturation the hardening over '
-     'the bracket is below the defect. Registered instead (O8): r(ub) >= -(3 - 2c^2) mu (ub - lb), r(ub) >= 0 iff hardening over the bracket >= defect, and a '
-     'saturated-regime query that reproduces the NaN state on the real code.'),
     ('O5 tangent inequality / approximate minimality for Voce', 'needs convexity (tangent) instances of exp between the two arguments; only strict monotonicity of r is registered for Voce (O8)'),
     ('power-law hardening (n = 1) and power-law rate sensitivity (m = 1)', 'not built in this round; outside the claim (stated in h.outside)'),
     ('O4/O6/O7 for Voce', 'chain links (ii)-(iv) are hardening independent, but the closes need flow(x) >= Y0 and the contract at the new eqps with exp instances; not built in this round'),
